@@ -64,7 +64,11 @@ def _run_mutant(args):
             compile(new_src, path, "exec")
         except SyntaxError as e:
             return (m.name, m.expect, "error", f"mutant does not compile: {e}")
-        index = Index(root, overlay={m.relpath: new_src})
+        if _BASE_INDEX is not None and _BASE_INDEX.root == root:
+            index = _BASE_INDEX  # forked copy; this worker handles exactly one task
+            index.apply_overlay({m.relpath: new_src})
+        else:
+            index = Index(root, overlay={m.relpath: new_src})
         try:
             ctx, per_rule, new, hit, known = analyse(reg, "quick", 0, index=index)
         except AnalysisError as e:
@@ -72,6 +76,7 @@ def _run_mutant(args):
                 return (m.name, m.expect, "noisy", f"ANALYSIS-ERROR on benign refactor: {e}")
             # a mutant that blinds the rule is detected fail-closed (exit 2), acceptable but reported
             return (m.name, m.expect, "fail-closed", str(e)[:200])
+        new = [i for i in new if (i.rule, i.key) not in _BASELINE_KEYS]
         fired = sorted({i.rule for i in new})
         if m.expect is None:
             if new:
@@ -84,14 +89,26 @@ def _run_mutant(args):
         return (f"#{idx}", None, "error", traceback.format_exc()[-600:])
 
 
-def selftest(reg: Registry, root: str, jobs: int = 16):
+_BASE_INDEX = None
+_BASELINE_KEYS: set = set()
+
+
+def selftest(reg: Registry, root: str, jobs: int = 12, baseline_new=()):
+    """Mutants/benign refactors are judged relative to the baseline run: a mutant must add a
+    violation (rule, key) that the unchanged tree does not have; a benign refactor must add none."""
     import multiprocessing as mp
 
+    global _BASE_INDEX, _BASELINE_KEYS
     if not reg.mutants:
-        return {"mutants": 0}, True, []
+        return {"mutants_total": 0}, True, []
+    _BASE_INDEX = Index(root)
+    import gc
+    gc.freeze()  # keep the parsed trees out of the children's GC passes (less copy-on-write)
+    _BASELINE_KEYS = {(i.rule, i.key) for i in baseline_new}
     args = [(reg.prop, i, root) for i in range(len(reg.mutants))]
-    with mp.get_context("fork").Pool(min(jobs, len(args))) as pool:
+    with mp.get_context("fork").Pool(min(jobs, len(args)), maxtasksperchild=1) as pool:
         res = pool.map(_run_mutant, args, chunksize=1)
+    _BASE_INDEX = None
     breaking = [r for r in res if r[1] is not None]
     benign = [r for r in res if r[1] is None and r[2] != "error"]
     summary = {
@@ -145,7 +162,7 @@ def main(argv=None):
     extra = {}
     st_ok = True
     if a.tier == "thorough" or a.selftest_only:
-        summary, st_ok, bad = selftest(reg, ctx.index.root)
+        summary, st_ok, bad = selftest(reg, ctx.index.root, baseline_new=new)
         extra.update(summary)
         for r in bad:
             print(f"SELFTEST-FAIL property={prop} mutant={r[0]} expect={r[1]} status={r[2]} {r[3]}")
